@@ -470,7 +470,7 @@ def from_notes_rows(ctx: Ctx) -> None:
 # C09 / C10 / C13 specifics
 
 
-def grouping_order(ctx: Ctx) -> None:
+def grouping_order(ctx: Ctx, join_guard: bool = True) -> None:
     """C09.3: nothing buffered is lost; the type filter precedes both branches."""
     p = ctx.p
     g = p.func("simfile.notes.group:group_notes")
@@ -524,7 +524,8 @@ def grouping_order(ctx: Ctx) -> None:
         fsj = [(ast.unparse(a), pol) for a, pol in facts(ctx, g, jc[0])]
         detail = str(fsj)
         okj = fsj == [("join_heads_to_tails", True)] and len(jc[0].args) == 1 and isinstance(jc[0].args[0], ast.Name) and jc[0].args[0].id == "notes"
-    ctx.expect("R-ORDER", g, "heads are joined to tails (and orphan policies applied) exactly when join_heads_to_tails is set", okj, detail,
+    if join_guard:
+      ctx.expect("R-ORDER", g, "heads are joined to tails (and orphan policies applied) exactly when join_heads_to_tails is set", okj, detail,
                f"the joining pass runs under {detail}: with the option set but the extra condition false, orphaned heads/tails are emitted as plain notes instead of being raised about or dropped", node=g.node)
     # row grouping by beat, in stream order
     gls = _groupby_loops(ctx, g)
